@@ -24,7 +24,7 @@ COMPONENTS = {"real": ["collision.c searches (direct, line, tree, linetree), shu
 ASSUMPTIONS = ["integrator leapfrog with gravity off: one step = straight-line drift + search; the state the search sees is captured by a post_timestep_modifications callback and the documented boundary wrap is applied to it by the model",
                "pairs within a relative band of 1e-9 of the overlap / approach thresholds are don't-care",
                "with a mutating resolver a must-pair may be skipped iff one of its members was removed or already merged earlier in the same step (built-in behaviour: last_collision == t)"]
-PROBES = ["cluster_ge3", "simultaneous_collisions_sharing_particle", "pair_across_periodic_image", "giant_and_dust", "zero_radius", "orders_differ", "merges", "bounces", "tree_mode", "line_mode", "removed_then_remapped_index", "twins_planted", "backward_step_line_search"]
+PROBES = ["cluster_ge3", "simultaneous_collisions_sharing_particle", "pair_across_periodic_image", "giant_and_dust", "zero_radius", "orders_differ", "merges", "bounces", "tree_mode", "line_mode", "removed_then_remapped_index", "twins_planted", "backward_step_line_search", "bounce_across_moving_image"]
 
 MODES = ["direct", "line", "tree", "linetree"]
 
@@ -40,6 +40,11 @@ def generate(rng, tier, index):
     resolver = c.choice(["record", "merge", "merge", "hardsphere"])
     keep_sorted = c.choice([0, 1]) if mode in ("direct", "line") else 0
     ng = c.choice([0, 1, 1, 2]) if boundary == "periodic" else 0
+    if resolver == "hardsphere" and rng.derive("shear").chance(0.35):
+        # shearing sheet: the radial images move with -1.5*OMEGA*Lx per box, so a pair across the x face is resolved in a frame with a velocity offset
+        # (only the resolver-level clauses apply here: momentum, separating afterwards, energy at restitution 1, an approaching overlapping pair must bounce)
+        boundary = "shear"
+        ng = c.choice([1, 1, 2])
     dt = 0.01
     if mode in ("line", "linetree") and c.chance(0.35):
         dt = -0.01          # backward integration: the paths of the last step run the other way (the overlap searches' velocity-sign convention is left alone)
@@ -56,7 +61,7 @@ def generate(rng, tier, index):
     structure = []
     nclusters = c.randint(1, 4)
     for k in range(nclusters):
-        kind = c.weighted([("pair", 3), ("chain", 2), ("clique", 3), ("giant", 1.5), ("image", 2 if boundary == "periodic" and ng else 0), ("cross", 2 if mode in ("line", "linetree") else 0), ("separating", 1),
+        kind = c.weighted([("pair", 3), ("chain", 2), ("clique", 3), ("giant", 1.5), ("image", 2 if boundary == "periodic" and ng else (6 if boundary == "shear" else 0)), ("cross", 2 if mode in ("line", "linetree") else 0), ("separating", 1),
                             ("twins", 3 if mode in ("tree", "linetree") else 0.5)])
         cx, cy, cz = rpos(1.5)
         r0 = c.loguniform(0.02, 0.3)
@@ -85,6 +90,14 @@ def generate(rng, tier, index):
                 d = R * c.uniform(0.6, 0.99)
                 dx, dy, dz = d * math.sin(ph) * math.cos(th), d * math.sin(ph) * math.sin(th), d * math.cos(ph)
                 add(cx + dx, cy + dy, cz + dz, -dx, -dy, -dz, c.choice([0.0, 1e-3, 1e-2]), m=1e-6)
+        elif kind == "image" and boundary == "shear":
+            # pair across the radial face, both on (or near) the shear flow vy = -1.5*OMEGA*x, offset in y so that the separation has a y component
+            y, z = c.uniform(-Ly / 2 + 1, Ly / 2 - 1), c.uniform(-Lz / 2 + 1, Lz / 2 - 1)
+            r0 = max(r0, 0.15)
+            xa, xb = Lx / 2 - 0.4 * r0, -Lx / 2 + 0.4 * r0
+            off = c.choice([-0.6, -0.3, 0.3, 0.6]) * r0
+            add(xa, y + off, z, c.choice([0.0, 0.3]), -1.5 * xa + c.uniform(-0.2, 0.2), 0, r0, m=c.choice([1.0, 3.0]))
+            add(xb, y, z, c.choice([0.0, -0.3]), -1.5 * xb + c.uniform(-0.2, 0.2), 0, r0, m=1.0)
         elif kind == "image":
             y, z = c.uniform(-Ly / 2 + 1, Ly / 2 - 1), c.uniform(-Lz / 2 + 1, Lz / 2 - 1)
             add(Lx / 2 - 0.4 * r0, y, z, 0.2, 0, 0, r0)
@@ -187,6 +200,8 @@ def execute(case, ctx):
         sim.collision = mode
         if boundary != "none":
             sim.boundary = boundary
+        if boundary == "shear":
+            sim.ri_sei.OMEGA = 1.0
         sim.N_ghost_x = sim.N_ghost_y = sim.N_ghost_z = ng
         sim.collision_resolve_keep_sorted = case["keep_sorted"]
         sim.dt = case["dt"]
@@ -234,6 +249,14 @@ def execute(case, ctx):
                     if abs(b0 - b1) > 1e-11 * sc:
                         err.append("hard-sphere bounce changed the pair's momentum (axis %d: %r -> %r)" % (a, b0, b1))
                 bounced = (q1.vx, q1.vy, q1.vz, q2.vx, q2.vy, q2.vz) != (v1x, v1y, v1z, v2x, v2y, v2z)
+                if (gvx, gvy, gvz) != (0.0, 0.0, 0.0):
+                    probe("bounce_across_moving_image")
+                rsum = p1.r + p2.r
+                d2_ = dx * dx + dy * dy + dz * dz
+                rv0_ = (v1x + gvx - v2x) * dx + (v1y + gvy - v2y) * dy + (v1z + gvz - v2z) * dz
+                vv_ = (v1x + gvx - v2x) ** 2 + (v1y + gvy - v2y) ** 2 + (v1z + gvz - v2z) ** 2
+                if not bounced and d2_ < rsum * rsum * (1 - 1e-9) and rv0_ < -1e-9 * math.sqrt(vv_ * d2_ + 1e-300) and m1 > 0 and m2 > 0:
+                    err.append("overlapping pair approaching in the frame of the image was left untouched by the hard-sphere resolver (v.n %r, image velocity (%r,%r,%r))" % (rv0_, gvx, gvy, gvz))
                 if bounced:
                     probe("bounces")
                     rvn = (q1.vx + gvx - q2.vx) * dx + (q1.vy + gvy - q2.vy) * dy + (q1.vz + gvz - q2.vz) * dz
@@ -241,8 +264,9 @@ def execute(case, ctx):
                     if rvn < -1e-12 * abs(rv0):
                         err.append("pair still approaching after the bounce (v.n %r -> %r)" % (rv0, rvn))
                     if case["eps"] == 1.0:
-                        k0 = m1 * (v1x**2 + v1y**2 + v1z**2) + m2 * (v2x**2 + v2y**2 + v2z**2)
-                        k1 = m1 * (q1.vx**2 + q1.vy**2 + q1.vz**2) + m2 * (q2.vx**2 + q2.vy**2 + q2.vz**2)
+                        # (in the frame of the image: particle 1 carries the ghost box velocity)
+                        k0 = m1 * ((v1x + gvx)**2 + (v1y + gvy)**2 + (v1z + gvz)**2) + m2 * (v2x**2 + v2y**2 + v2z**2)
+                        k1 = m1 * ((q1.vx + gvx)**2 + (q1.vy + gvy)**2 + (q1.vz + gvz)**2) + m2 * (q2.vx**2 + q2.vy**2 + q2.vz**2)
                         # kinetic energy is frame dependent: only meaningful without a ghost velocity shift (periodic boxes have none)
                         if abs(k0 - k1) > 1e-10 * (abs(k0) + 1e-300):
                             err.append("elastic bounce changed the pair's kinetic energy (%r -> %r)" % (k0, k1))
@@ -354,6 +378,8 @@ def execute(case, ctx):
             viol("resolve", "resolution step failed", "%s: %s" % (tagm, err[0]), key="resolve:" + err[0].split(":")[0][:40], seed=seed)
             break
         orders_seen.add(tuple((l[1], l[2]) for l in ledger))
+        if boundary == "shear":
+            continue        # time dependent ghost shift: completeness / ledger clauses are not applied (see DESIGN 11.4), the resolver-level clauses above are
         # ---- 1. completeness, step by step -------------------------------------------------------------
         bad = False
         for st in range(len(pre)):
